@@ -73,7 +73,13 @@ fn full_cmd(g: &mut Gen) -> (String, Command) {
         26 => Command::RandomKey, 27 => Command::Select(g.rng.gen_range(0..16)),
         // AUTH and ACL WHOAMI/LIST/USERS/GETUSER/SETUSER/DELUSER are answered by the connection layer and never reach
         // CommandExecutor::execute (which debug-asserts that routing contract); they are not sent here.
-        28..=30 => Command::IncrByFloat(k(g), g.pick(&[0.5, -0.5, 1e308])),
+        28 => Command::IncrByFloat(k(g), g.pick(&[0.5, -0.5, 1e308])),
+        // sorted sets with float scores (outside the model): infinities, fractions, ties
+        29..=30 => { let n = g.rng.gen_range(1..=2);
+                     let (nx, xx, gt, lt) = g.pick(&[(false, false, false, false), (false, false, false, false), (true, false, false, false), (false, true, false, false), (false, false, true, false), (false, false, false, true)]);
+                     Command::ZAdd { key: if g.chance(0.8) { "z".to_string() } else { k(g) },
+                                     pairs: (0..n).map(|_| (g.pick(&[f64::INFINITY, f64::NEG_INFINITY, 1.5, -0.0, 2.0, 1e300, 3.0]), SDS::new(g.member()))).collect(),
+                                     nx, xx, gt, lt, ch: g.chance(0.3) } }
         31..=32 => Command::SPop(k(g), g.pick(&[None, Some(1usize)])),
         33..=34 => Command::Sort { key: k(g), store: Some(k(g)) },
         35 => Command::AclCat { category: g.pick(&[None, Some("read".to_string()), Some("nope".to_string())]) },
